@@ -404,13 +404,22 @@ class Template:
     def source(self):
         """Return the template source code for this :class:`.Template`."""
 
-        return _get_module_info_from_callable(self.callable_).source
+        return self._module_info.source
 
     @property
     def code(self):
         """Return the module source code for this :class:`.Template`."""
 
-        return _get_module_info_from_callable(self.callable_).code
+        return self._module_info.code
+
+    @property
+    def _module_info(self):
+        # the ModuleInfo made for this Template; the registry is keyed by
+        # module name, which another Template may share
+        info = getattr(self, "_mmarker", None)
+        if info is None:
+            info = _get_module_info_from_callable(self.callable_)
+        return info
 
     @util.memoized_property
     def cache(self):
@@ -562,6 +571,7 @@ class DefTemplate(Template):
     def __init__(self, parent, callable_):
         self.parent = parent
         self.callable_ = callable_
+        self._mmarker = getattr(parent, "_mmarker", None)
         self.output_encoding = parent.output_encoding
         self.module = parent.module
         self.encoding_errors = parent.encoding_errors
